@@ -6,5 +6,9 @@ Inductive index_form :=
 | ZeroBased   (* get_findings_for_location(lineno)      -- the enumerate() index (pinned tree 245fc22) *)
 | OneBased.   (* get_findings_for_location(lineno + 1)  -- the line number of the change (fix c5fc52c) *)
 
+(** xml_transformer.py: XMLTransformerPipeline.apply returns None (and writes nothing) when create_diff is empty (fix 927c1e3),
+    or builds the ChangeSet whatever the diff (pinned tree). *)
+Inductive xml_diff_guard := NoDiffGuard | DiffGuard.
+
 (** Shape of a fragment the model has exactly one reading of. *)
 Inductive as_written := AsWritten.
